@@ -954,7 +954,7 @@ impl NodeDeletionEntry {
             }
         }
         let query = format!(
-            "SELECT id, verifying_key  FROM _node WHERE id in ({})",
+            "SELECT id, verifying_key, _entity  FROM _node WHERE id in ({})",
             in_clause
         );
         let mut stmt = conn.prepare(&query)?;
@@ -962,7 +962,16 @@ impl NodeDeletionEntry {
         while let Some(row) = rows.next()? {
             let id: Uid = row.get(0)?;
             let verifying_key: Option<Vec<u8>> = row.get(1)?;
-            if let Some(entry) = map.get_mut(&id) {
+            let entity: String = row.get(2)?;
+            //rights are evaluated for the entity named in the deletion entry:
+            //an entry that names another entity than the stored node is ignored
+            let same_entity = match map.get(&id) {
+                Some(entry) => entry.0.entity.eq(&entity),
+                None => true,
+            };
+            if !same_entity {
+                map.remove(&id);
+            } else if let Some(entry) = map.get_mut(&id) {
                 entry.1 = verifying_key;
             }
         }
